@@ -185,6 +185,9 @@ pub fn gen_case(t: &mut Tape) -> Case {
         strats.push(Strat::PathNoMmap);
         strats.push(Strat::PathMmap);
     }
+    if t.chance(1, 20) {
+        strats.push(Strat::PathFifo);
+    }
     Case {
         mat,
         cfg,
@@ -375,6 +378,7 @@ pub fn check(case: &Case) -> Verdict {
     info.class_if(max_data_reads >= 3, "reader_refilled>=2");
     info.class_if(case.also_multi_line, "multi_line_requested");
     info.class_if(case.cfg.warm.is_some(), "searcher_reused_after_another_input");
+    info.class_if(case.strats.iter().any(|s| matches!(s, Strat::PathFifo)), "path_that_reports_zero_length(named_pipe)");
     info.class_if(matches!(&case.mat, Mat::Re { pat } if pat.multiline), "matcher_built_without_terminator");
     info.class_if(case.heap_limit_probe, "heap_limit_probe");
     info.class_if(input.len() > 65536, "input>64KiB");
